@@ -159,6 +159,16 @@ func checkAcceptedExact(t ev.Failer, prop string, sc *sealedCase, tr *wire.Conn,
 	if !slices.Equal(c.ALPNProtos(), sc.Tuple.InnerALPN) && !(len(c.ALPNProtos()) == 0 && len(sc.Tuple.InnerALPN) == 0) {
 		ev.Violation(t, prop, sc.replay(), "ALPNProtos()=%q want %q", c.ALPNProtos(), sc.Tuple.InnerALPN)
 	}
+	// what the accessors return belongs to the caller: editing it (sorting, filtering in
+	// place, appending) changes nothing about the connection
+	p1 := c.ALPNProtos()
+	for i := range p1 {
+		p1[i] = "edited-by-caller"
+	}
+	_ = append(p1[:0], "x", "y", "z")
+	if p2 := c.ALPNProtos(); !slices.Equal(p2, sc.Tuple.InnerALPN) && !(len(p2) == 0 && len(sc.Tuple.InnerALPN) == 0) {
+		ev.Violation(t, prop, sc.replay(), "ALPNProtos()=%q after the caller edited the slice returned by an earlier call, want %q", p2, sc.Tuple.InnerALPN)
+	}
 }
 
 func TestC03(t *testing.T) {
